@@ -366,6 +366,17 @@ func harnessOnly(cls string) bool {
 }
 
 func main() {
+	if len(os.Args) >= 2 && os.Args[1] == "prebuild" {
+		os.MkdirAll(filepath.Join(verifDir, ".bin"), 0o755)
+		os.MkdirAll(filepath.Join(verifDir, ".cache"), 0o755)
+		for _, v := range [][2]bool{{false, false}, {true, false}, {false, true}, {true, true}} {
+			if _, err := buildX(v[0], v[1]); err != nil {
+				fatal(2, "%v", err)
+			}
+		}
+		fmt.Println("prebuild ok")
+		return
+	}
 	if len(os.Args) >= 2 && os.Args[1] == "selftest" {
 		n := 300
 		if len(os.Args) >= 3 {
